@@ -4,6 +4,7 @@
    token converter and Parser.currentLocation.  [bs] is any input (any bytes), offsets are byte offsets. *)
 From Coq Require Import List Arith NArith Bool.
 From GV Require Import Model.Loc Proofs.LocP Model.Cost Proofs.LocCostP.
+From GV Require Gen.LexTables Model.Lexer Model.Loc Proofs.LexErrLocP.
 Import ListNotations.
 Local Open Scope nat_scope.
 
@@ -120,6 +121,26 @@ Theorem C05_split_positions_shared_refuted :
     ~ lex_le (snd (part_span false s e ws i)) (fst (part_span false s e ws j)).
 Proof. exact split_positions_shared_refuted. Qed.
 
+(* ---- the tokenizer's own errors (model Model/Lexer.v, proofs Proofs/LexErrLocP.v) ----
+   every error Tokenize returns is either the size-limit rejection at 1:1 or carries toSQLPosition of a byte offset
+   that is at most the length of the input (the end of the input is a legitimate error position) ... *)
+Theorem C05_tokenizer_error_offset :
+  forall max_in max_tok bs c l k, Lexer.tokenize_with max_in max_tok bs = Lexer.Err c l k ->
+  (c = LexTables.E_InputTooLarge /\ l = 1%N /\ k = 1%N) \/
+  exists i, (i <= N.of_nat (length bs))%N /\ (l, k) = Lexer.to_loc bs i.
+Proof. exact LexErrLocP.tokenize_err_offset. Qed.
+
+(* ... hence the reported location lies inside the input: line and column are 1-based, the line is at most the number
+   of lines of the input, and the column is at most the width of that line + 1 (s = byte offset at which line l
+   starts: s = 0 or the byte before s is LF, and l = 1 + number of LF before s) *)
+Theorem C05_tokenizer_error_location_inside :
+  forall max_in max_tok bs c l k, Lexer.tokenize_with max_in max_tok bs = Lexer.Err c l k ->
+  (1 <= l)%N /\ (1 <= k)%N /\ (N.to_nat l <= 1 + Loc.count_lf bs)%nat /\
+  exists s, ((s <= length bs)%nat /\ (s = 0%nat \/ nth_error bs (s - 1) = Some Loc.LF) /\
+             N.to_nat l = (1 + Loc.count_lf (firstn s bs))%nat) /\
+            (N.to_nat k <= 1 + Loc.width (Loc.line_bytes bs s))%nat.
+Proof. exact LexErrLocP.tokenize_err_location_inside. Qed.
+
 Print Assumptions C05_loc_spec.
 Print Assumptions C05_loc_one_based.
 Print Assumptions C05_loc_monotone.
@@ -141,6 +162,8 @@ Print Assumptions C05_split_spans_exact.
 Print Assumptions C05_split_positions_ordered.
 Print Assumptions C05_split_positions_inside.
 Print Assumptions C05_split_positions_shared_refuted.
+Print Assumptions C05_tokenizer_error_offset.
+Print Assumptions C05_tokenizer_error_location_inside.
 
 (* ---- non-vacuity: the hypotheses are met by concrete, non-trivial states ---- *)
 (* "-- c\n\nSELECT 1" : the token after a comment and a blank line is on line 3, column 1 *)
